@@ -39,15 +39,10 @@ func (p Params) Validate() error {
 		return errors.New("confirmation number can't set to zero(mempool txs are not reliable)")
 	}
 
-	if p.DepositTaxRate > 0 {
-		if p.MaxDepositTax == 0 || p.DepositTaxRate > 1e4 {
-			return fmt.Errorf("invalid deposit tax: DepositTaxRate(%d) MaxDepositTax(%d)",
-				p.DepositTaxRate, p.MaxDepositTax)
-		}
-		if p.MaxDepositTax > 1e8 {
-			return fmt.Errorf("MaxDepositTax is too large: %d", p.MaxDepositTax)
-		}
-	} else if p.MaxDepositTax != 0 {
+	// MaxDepositTax is only a cap (0 = no cap) and the execution layer may set it to any
+	// value independently of the rate, so every combination the running chain can reach
+	// must be importable again
+	if p.DepositTaxRate > 1e4 {
 		return fmt.Errorf("invalid deposit tax: DepositTaxRate(%d) MaxDepositTax(%d)",
 			p.DepositTaxRate, p.MaxDepositTax)
 	}
